@@ -3,6 +3,9 @@ use vstd::prelude::*;
 verus! {
 
 // ---------- shims ----------
+// (root level: deriving Structural inside a module trips a Verus internal error)
+#[derive(PartialEq, Eq, Structural)]
+pub struct Timeout(pub u64);                           // operation::Timeout(Duration), whole seconds
 pub struct UrlSchemes { pub id: u64 }     // Vec<Box<str>>
 pub struct UnknownUri { pub id: u64 }     // Arc<UriStr>
 //@item file=netconf/src/capabilities.rs kind=enum name=Base
@@ -35,9 +38,24 @@ pub open spec fn req_sat(r: Requirements, caps: Set<Capability>) -> bool {
     }
 }
 impl Requirements {
-    // Requirements::check (iterator any()/all() with closures) — ASSUMED to compute req_sat
-    #[verifier::external_body]
-    pub fn check(&self, capabilities: &Capabilities) -> (r: bool) ensures r == req_sat(*self, capabilities.set@) { unimplemented!() }
+//@extract id=requirements_check file=netconf/src/capabilities.rs impl=/^impl Requirements/ fn=check rules=R1,R19 r19kind=slice vis=pub
+//@contract
+        ensures res == req_sat(*self, capabilities.set@),                                    // OBL:C09.requirements.check_computes_requirement
+//@loop 1
+                invariant_except_break !r__0,
+                invariant
+                    s__0@ == requirements@, 0 <= i__0 <= s__0@.len(),
+                    forall|j: int| 0 <= j < i__0 ==> !capabilities.set@.contains(#[trigger] requirements@[j]),
+                ensures r__0 <==> any_in(requirements@, capabilities.set@),
+                decreases s__0@.len() - i__0,
+//@loop 2
+                invariant_except_break r__1,
+                invariant
+                    s__1@ == requirements@, 0 <= i__1 <= s__1@.len(),
+                    forall|j: int| 0 <= j < i__1 ==> capabilities.set@.contains(#[trigger] requirements@[j]),
+                ensures r__1 <==> all_in(requirements@, capabilities.set@),
+                decreases s__1@.len() - i__1,
+//@end
 }
 
 // Any(&[a, b]) / All(&[a, b]) over a two-element static list (the only shapes the code uses), unfolded
@@ -75,6 +93,7 @@ pub enum Error {
     UnsupportedFilterType { filter: &'static str, required_capabilities: Requirements },
     UnsupportedOperParameterValue { operation_name: &'static str, param_name: &'static str, param_value: &'static str, required_capabilities: Requirements },
     UnsupportedOperationParameter { operation_name: &'static str, param_name: &'static str, required_capabilities: Requirements },
+    IncompatibleOperationParameters { operation_name: &'static str, parameters: Vec<&'static str> },
     Other,
 }
 
@@ -252,6 +271,83 @@ impl<'a> Builder<'a> {
         requires inv(self),
         ensures res matches Ok(op) ==> permitted_source(op.source, self.ctx.server_capabilities.set@)
                 && (op.filter matches Some(f) ==> permitted_filter(f, self.ctx.server_capabilities.set@)),         // OBL:C09.get_config.request_uses_only_permitted
+//@end
+}
+}
+
+pub mod commit {
+use super::*;
+pub struct Duration { pub secs: u64 }
+pub struct Token { pub id: u64 }                       // Token { inner: Arc<str> }
+pub use crate::Timeout;
+impl Timeout { pub fn default() -> (r: Timeout) ensures r == Timeout(600) { Timeout(600) } }
+#[verifier::external_body]
+pub fn timeout_of(d: Duration) -> (r: Timeout) ensures r == Timeout(d.secs) { unimplemented!() }
+pub const COMMIT_NAME: &'static str = "commit";
+#[verifier::external_body]
+pub fn vec2(a: &'static str, b: &'static str) -> (r: Vec<&'static str>) { unimplemented!() }
+
+//@item file=netconf/src/message/rpc/operation/commit.rs kind=struct name=Commit sub=/confirmed: bool=>pub confirmed: bool;confirm_timeout:=>pub confirm_timeout:;persist:=>pub persist:;persist_id:=>pub persist_id:/
+//@item file=netconf/src/message/rpc/operation/commit.rs kind=struct name=Builder sub=/ctx:=>pub ctx:;confirmed: bool=>pub confirmed: bool;confirm_timeout:=>pub confirm_timeout:;persist:=>pub persist:;persist_id:=>pub persist_id:/
+
+// RFC 6241 8.4: <confirmed> and <confirm-timeout> need :confirmed-commit (1.0 or 1.1); <persist> and <persist-id> need 1.1
+pub open spec fn inv(b: Builder) -> bool {
+    let caps = b.ctx.server_capabilities.set@;
+    &&& (b.confirmed || b.confirm_timeout != Timeout(600)) ==> permitted_confirmed(caps)
+    &&& (b.persist is Some || b.persist_id is Some) ==> permitted_persist(caps)
+}
+pub open spec fn commit_permitted(op: Commit, caps: Set<Capability>) -> bool {
+    &&& (op.confirmed || op.confirm_timeout != Timeout(600)) ==> permitted_confirmed(caps)
+    &&& (op.persist is Some || op.persist_id is Some) ==> permitted_persist(caps)
+}
+impl<'a> Builder<'a> {
+//@extract id=commit_try_use file=netconf/src/message/rpc/operation/commit.rs impl=/^impl Builder<'_>/ fn=try_use rules=R1,R7,R17 vis=pub
+//@+ sub=/Commit::NAME=>COMMIT_NAME/
+//@contract
+        ensures res is Ok <==> req_sat(required_capabilities, self.ctx.server_capabilities.set@),        // OBL:C09.commit.try_use_iff_requirement
+//@end
+//@extract id=commit_try_use_confirmed file=netconf/src/message/rpc/operation/commit.rs impl=/^impl Builder<'_>/ fn=try_use_confirmed rules=R1 vis=pub
+//@contract
+        ensures res is Ok <==> permitted_confirmed(self.ctx.server_capabilities.set@),                   // OBL:C09.commit.confirmed_iff_permitted
+//@end
+//@extract id=commit_try_use_persist file=netconf/src/message/rpc/operation/commit.rs impl=/^impl Builder<'_>/ fn=try_use_persist rules=R1 vis=pub
+//@contract
+        ensures res is Ok <==> permitted_persist(self.ctx.server_capabilities.set@),                     // OBL:C09.commit.persist_iff_permitted
+//@end
+//@extract id=commit_confirmed file=netconf/src/message/rpc/operation/commit.rs impl=/^impl Builder<'_>/ fn=confirmed rules=R1,R7,R16,R17 r7map=result vis=pub
+//@contract
+        requires inv(self),
+        ensures res is Ok <==> permitted_confirmed(self.ctx.server_capabilities.set@),
+                res matches Ok(b) ==> inv(b) && b.ctx == self.ctx,                                        // OBL:C09.commit.builder_holds_only_permitted
+//@end
+//@extract id=commit_confirm_timeout file=netconf/src/message/rpc/operation/commit.rs impl=/^impl Builder<'_>/ fn=confirm_timeout rules=R1,R7,R16,R17 r7map=result vis=pub
+//@+ sub=/Timeout(timeout)=>timeout_of(timeout)/
+//@contract
+        requires inv(self),
+        ensures res is Ok <==> permitted_confirmed(self.ctx.server_capabilities.set@),
+                res matches Ok(b) ==> inv(b) && b.ctx == self.ctx,                                        // OBL:C09.commit.builder_holds_only_permitted
+//@end
+//@extract id=commit_persist file=netconf/src/message/rpc/operation/commit.rs impl=/^impl Builder<'_>/ fn=persist rules=R1,R7,R16,R17 r7map=result vis=pub
+//@contract
+        requires inv(self),
+        ensures res is Ok <==> permitted_persist(self.ctx.server_capabilities.set@),                      // OBL:C09.commit.persist_needs_confirmed_commit_1_1
+                res matches Ok(b) ==> inv(b) && b.ctx == self.ctx,                                        // OBL:C09.commit.builder_holds_only_permitted
+//@end
+//@extract id=commit_persist_id file=netconf/src/message/rpc/operation/commit.rs impl=/^impl Builder<'_>/ fn=persist_id rules=R1,R7,R16,R17 r7map=result vis=pub
+//@contract
+        requires inv(self),
+        ensures res is Ok <==> permitted_persist(self.ctx.server_capabilities.set@),                      // OBL:C09.commit.persist_id_needs_confirmed_commit_1_1
+                res matches Ok(b) ==> inv(b) && b.ctx == self.ctx,                                        // OBL:C09.commit.builder_holds_only_permitted
+//@end
+//@extract id=commit_builder_new file=netconf/src/message/rpc/operation/commit.rs impl=/Builder<'a, Commit> for Builder<'a>/ fn=new rules=R1 vis=pub
+//@contract
+        ensures inv(res), res.ctx == ctx,
+//@end
+//@extract id=commit_builder_finish file=netconf/src/message/rpc/operation/commit.rs impl=/Builder<'a, Commit> for Builder<'a>/ fn=finish rules=R1 vis=pub
+//@+ sub=/Commit::NAME=>COMMIT_NAME;;vec!["confirmed = true", "persist-id"]=>vec2("confirmed = true", "persist-id");;vec!["confirmed = false", "persist"]=>vec2("confirmed = false", "persist")/
+//@contract
+        requires inv(self),
+        ensures res matches Ok(op) ==> commit_permitted(op, self.ctx.server_capabilities.set@),           // OBL:C09.commit.request_uses_only_permitted
 //@end
 }
 }
